@@ -18,6 +18,8 @@ RULE = ('Hypothesis draws a TT (order 1..5, vector or operator, real/complex, mo
         'equal, processed cores are isometries on their side (Gram = I), no rank increases, metadata consistent, cores outside '
         'the touched window bit-identical, return value is self. Non-trivial: rank-deficient, over-parameterised, zero core, '
         'complex, size-1 mode or a partial sweep.')
+RULE += (' ' + 'Added classes: nearly orthonormal cores (1e-7 ... 3e-6), an overall factor 1e-30 ... 1e8, and the same object swept again after the caller changed a swept core array in place.')
+
 ASSUMPTIONS = [
     'no truncation: threshold 0 and max_rank inf (defaults, or passed explicitly)',
     'start/end indices inside the documented ranges (0 <= start <= end <= d-2 for left sweeps, d-1 >= start >= end >= 1 for right sweeps)',
